@@ -5,6 +5,7 @@ the two transient flags of jaxtyping/_storage.py (flatten mode, `?`-leaf label).
 Core Lean only.
 -/
 import JaxVerif.Model.Core
+import JaxVerif.Model.Parse
 
 namespace JV
 
@@ -78,13 +79,11 @@ def composeNamed (pm : List (String × Def)) : List String → Def → Res Def
     | none => .annErr
     | some t => composeNamed pm ps (Def.subst t acc)
 
-def isIdentStr (s : String) : Bool :=
-  match s.toList with
-  | [] => false
-  | c :: cs => (c.isAlpha || c == '_') && cs.all (fun d => d.isAlphanum || d == '_')
+/-- `cls.structure.isidentifier()` (ASCII) -/
+def isIdentStr (s : String) : Bool := isIdentifier s.toList
 
-def splitWsStr (s : String) : List String :=
-  (s.splitOn " ").filter (· ≠ "")
+/-- `cls.structure.split()` -/
+def splitWsStr (s : String) : List String := (splitWs s.toList).map String.ofList
 
 /-- the structure step of `_check`: bind / compare / composite; `fail` = the check says False -/
 def structStep (S : String) (d : Def) (pm : List (String × Def)) : Res (List (String × Def)) :=
